@@ -224,9 +224,10 @@ def _subprocess_run_duplicate_streams(cmd, timeout):
     # Use temporary files as targets for child process standard stream redirects
     # They seem to work better (i.e. do not hang) than pipes, when using
     # interactive commands like `vi`.
-    stdout_fd, stdout_name = tempfile.mkstemp()
-    stderr_fd, stderr_name = tempfile.mkstemp()
+    stdout_name = stderr_name = None
     try:
+        stdout_fd, stdout_name = tempfile.mkstemp()
+        stderr_fd, stderr_name = tempfile.mkstemp()
         # Read raw bytes and decode incrementally, like a text stream would
         # (universal newlines), to not depend on where our reads happen to fall
         # relative to the child's writes (multi-byte characters, CR LF).
@@ -305,6 +306,8 @@ def _subprocess_run_duplicate_streams(cmd, timeout):
         # The work is done or was interrupted, the temp files can be removed
         # FIXME: retry failed file removal once to maybe work around #547
         for name in (stdout_name, stderr_name):
+            if name is None:
+                continue
             try:
                 os.remove(name)
             except PermissionError:  # pragma: no cover
